@@ -350,7 +350,7 @@ func TestC25(t *testing.T) {
 			"the whole history replayed with all times shifted by ±100 years must give the same tx codes, validator updates, supply and pool. "+
 			"non-trivial = history with a slash that crosses the minimum stake, or an authorized unjail attempt in the last block before / first block at-or-after JailedUntil",
 		map[string]float64{"downtime-jail": 0.6, "slash-crosses-minimum": 0.4, "unjail-accepted": 0.3, "unjail-rejected-before-deadline": 0.25, "unjail-in-first-block-at-or-after-deadline": 0.3,
-			"unjail-in-last-block-before-deadline": 0.2, "unjail-at-exact-deadline": 0.1, "unjail-by-stranger-rejected": 0.15, "unjail-below-minimum-rejected": 0.25, "era-2101": 0.3, "era-2001": 0.3,
+			"unjail-in-last-block-before-deadline": 0.2, "unjail-at-exact-deadline": 0.1, "unjail-by-stranger-rejected": 0.1, "unjail-below-minimum-rejected": 0.25, "era-2101": 0.3, "era-2001": 0.3,
 			"shifted-replay": 0.4, "session-generated-while-jailed-node-on-chain": 0.5, "evidence-slash": 0.4, "challenge-burn": 0.4, "slash-capped-at-whole-stake": 0.2},
 		func(rt *rapid.T, c *harness.Case) {
 			d := newDirector(rt, c, c25Knobs())
